@@ -42,6 +42,11 @@ def build(inst, node_cls=None):
         kw["node_cls"] = node_cls
     if kind == "two":
         return fixtures.two_node_graph(supergraph=mode, **kw)
+    if kind == "fanout":
+        for k in ("windows", "rates", "delays", "third"):
+            if kw.get(k) is not None:
+                kw[k] = tuple(kw[k])
+        return fixtures.fanout_graph(supergraph=mode, **kw)
     if kind == "hetero":
         kw["settings"] = [tuple(x) for x in kw["settings"]]
         return fixtures.hetero_graph(supergraph=mode, **kw)
